@@ -181,6 +181,36 @@ class InstLayer:
         return '<InstLayer %s>' % self.__name__
 
 
+class Len0Layer(InstLayer):
+    """A resource-holding layer object that is an empty container."""
+
+    def __len__(self):
+        return 0
+
+
+class Bool0Layer(InstLayer):
+    def __bool__(self):
+        return False
+
+
+class EqLayer(InstLayer):
+    """Layers compared by value: two objects made for the same name are the
+    same layer (a factory called in several modules)."""
+
+    def __eq__(self, other):
+        return (isinstance(other, EqLayer) and self.__name__ == other.__name__
+                and self.__module__ == other.__module__)
+
+    def __ne__(self, other):
+        return not self.__eq__(other)
+
+    def __hash__(self):
+        return hash((self.__module__, self.__name__))
+
+
+ISHAPES = {'len0': Len0Layer, 'bool0': Bool0Layer, 'eq': EqLayer}
+
+
 HOOK_ACTIONS = {}     # (layer, hook, k-th call) -> [thread actions]
 _hook_calls = {}
 
@@ -247,6 +277,14 @@ def _cls_hook(hook, faults):
     return classmethod(h)
 
 
+_EQ_MAKERS = {}
+
+
+def _decoy_hook(lname, hook):
+    emit('L', lname, hook, '!', 'DECOY')
+    raise AssertionError('%s of the module attribute that merely has the name of layer %s was called' % (hook, lname))
+
+
 def make_layers(spec_layers, modname):
     objs = {}
     faults = {}
@@ -256,6 +294,7 @@ def make_layers(spec_layers, modname):
                 faults[(L['n'], hk)] = e
     _LAYER_EXTRA.clear()
     _SWAPPED.clear()
+    _EQ_MAKERS.clear()
     for L in spec_layers:
         bases = tuple(objs[b] for b in L.get('b') or ())
         lmod = L.get('m') or modname
@@ -266,10 +305,16 @@ def make_layers(spec_layers, modname):
                 ns[hk] = _cls_hook(hk, faults)
             objs[L['n']] = type(L['n'], bases or (object,), ns)
         else:
-            o = InstLayer(L.get('rn') or L['n'], lmod, bases)
-            for hk in declared:
-                setattr(o, hk, functools.partial(_hook_body, L['n'], hk, faults))
-            objs[L['n']] = o
+            def mk(L=L, lmod=lmod, bases=bases, declared=declared):
+                o = ISHAPES.get(L.get('ish'), InstLayer)(L.get('rn') or L['n'], lmod, bases)
+                for hk in declared:
+                    setattr(o, hk, functools.partial(_hook_body, L['n'], hk, faults))
+                return o
+            if L.get('ish') == 'eq':
+                # every mention of a base is a fresh, equal object
+                bases = tuple(_EQ_MAKERS[b]() if b in _EQ_MAKERS else objs[b] for b in L.get('b') or ())
+                _EQ_MAKERS[L['n']] = functools.partial(mk, bases=bases)
+            objs[L['n']] = mk(bases=bases)
         if L.get('sw') or L.get('lh') or L.get('unpath') or L.get('slow') or L.get('ret'):
             _LAYER_EXTRA[L['n']] = dict(L, _obj=objs[L['n']])
     return objs
@@ -810,6 +855,14 @@ def build(spec):
     m = types.ModuleType(modname)
     for k, v in layers.items():
         setattr(m, k, v)
+    for L in spec.get('layers') or ():
+        if L.get('shadow'):
+            # the module attribute of that name is ANOTHER object (the layer
+            # is nested in a class / made by a factory / re-bound later)
+            d = InstLayer(L.get('rn') or L['n'], L.get('m') or modname, ())
+            for hk in ('setUp', 'tearDown', 'testSetUp', 'testTearDown'):
+                setattr(d, hk, functools.partial(_decoy_hook, L['n'], hk))
+            setattr(m, L.get('rn') or L['n'], d)
     for inst in order:
         if not isinstance(inst, _DTMixin):
             setattr(m, type(inst).__name__, type(inst))
